@@ -364,6 +364,22 @@ def gen_nested_case(rng):
     return dict(pats=[pat], flags=f, input=data, cli=rng.random() < 0.3)
 
 
+def gen_word_and_line_case(rng):
+    """both -w and -x requested (library level: both builder options set): whole_line must win"""
+    pat = rng.choice(["foo", "a+", "[a-z]+", "fo?o", "b|foo", "\\w+", "x*"])
+    f = dict.fromkeys(FLAG_NAMES, False)
+    f["word"] = f["line"] = True
+    if rng.random() < 0.2:
+        f["invert"] = True
+    if rng.random() < 0.15:
+        f["crlf"] = True
+    if rng.random() < 0.1:
+        f["icase"] = True
+    pool = [b"foo", b"x foo y", b"foo bar", b" foo", b"aa", b"b aa", b"b", b"", b"fo", b"foo-", b"(foo)", b"FOO", b"a a"]
+    lines = [rng.choice(pool) for _ in range(rng.randint(3, 7))]
+    return dict(pats=[pat], flags=f, input=term(f).join(lines) + term(f), cli=rng.random() < 0.3)
+
+
 def gen_counted_case(rng):
     pat, lines = R.gen_counted(rng)
     f = dict.fromkeys(FLAG_NAMES, False)
@@ -390,6 +406,7 @@ CORPUS = [
     (["a$"], dict(null=True), b"a\nb\x00ba\x00"),
     (["foo"], dict(word=True), b"foo\nxfoo\nfoo_\n foo.\n"),
     (["foo"], dict(line=True), b"foo\nfoo \nfoo"),
+    (["foo"], dict(line=True, word=True), b"foo\nx foo y\nfoo bar\n"), (["a+"], dict(line=True, word=True, invert=True), b"aa\nb aa\n"),
     (["a.b", "c"], dict(fixed=True), b"a.b\naxb\nc\n"),
     (["abc"], dict(smart=True), b"ABC\nabc\n"),
     (["Abc"], dict(smart=True), b"ABC\nAbc\n"),
@@ -422,7 +439,7 @@ def run(ctx):
         cases.append(dict(pats=pats, flags=f, input=inp))
     check_cases(ctx, cases, stats, cli_every=1)
     special = [gen_multi_case(rng) for _ in range(ctx.count(220))] + [gen_counted_case(rng) for _ in range(ctx.count(200))] + \
-        [gen_nested_case(rng) for _ in range(ctx.count(200))] + [gen_smart_case(rng) for _ in range(ctx.count(200))] + [gen_control_literal_case(rng) for _ in range(ctx.count(200))]
+        [gen_word_and_line_case(rng) for _ in range(ctx.count(100))] + [gen_nested_case(rng) for _ in range(ctx.count(200))] + [gen_smart_case(rng) for _ in range(ctx.count(200))] + [gen_control_literal_case(rng) for _ in range(ctx.count(200))]
     stats["smart_case_range_cases"] = ctx.count(200)
     stats["control_literal_cases"] = ctx.count(200)
     stats["multi_pattern_case_pairs"] = ctx.count(220)
